@@ -3,8 +3,10 @@ package rules
 import (
 	"fmt"
 	"go/ast"
+	"go/constant"
 	"go/token"
 	"go/types"
+	"sort"
 	"strings"
 
 	"golang.org/x/tools/go/cfg"
@@ -808,4 +810,75 @@ func c15r9(rc *core.RC) {
 	if n < 5 {
 		rc.Unknown("decoder/structFieldSet-literals", token.NoPos, "found %d structFieldSet literals with a key", n)
 	}
+}
+
+// ---- C15.R10 the characters allowed in a tag name are encoding/json's ----
+
+// encoding/json accepts a tag name made of letters, digits and the punctuation
+// !#$%&()*+-./:;<=>?@[]^_{|}~ and space; a name with any other character is ignored and the Go field
+// name is used. runtime.isValidTag has to allow exactly that punctuation, or a field is encoded and
+// looked up under another name than encoding/json's.
+func c15r10(rc *core.RC) {
+	p := rc.P
+	fd := p.Func("runtime", "isValidTag")
+	key := "runtime.isValidTag/punctuation-set"
+	if fd == nil {
+		rc.Unknown(key, token.NoPos, "not found")
+		return
+	}
+	rc.Touch("runtime.isValidTag")
+	info := p.Info(fd)
+	want := "!#$%&()*+-./:;<=>?@[]^_{|}~ "
+	var sets []string
+	var at token.Pos
+	ast.Inspect(fd.Body, func(m ast.Node) bool {
+		c, ok := m.(*ast.CallExpr)
+		if !ok {
+			return true
+		}
+		switch core.CalleeName(info, c) {
+		case "strings.ContainsRune", "strings.IndexRune", "strings.ContainsAny", "strings.IndexByte", "strings.IndexAny":
+			if len(c.Args) >= 1 {
+				if tv, has := info.Types[c.Args[0]]; has && tv.Value != nil && tv.Value.Kind() == constant.String {
+					sets = append(sets, constant.StringVal(tv.Value))
+					at = c.Pos()
+				}
+			}
+		}
+		return true
+	})
+	if len(sets) != 1 {
+		rc.Unknown(key, fd.Pos(), "expected one constant punctuation set in isValidTag, found %d", len(sets))
+		return
+	}
+	got := map[rune]bool{}
+	for _, r := range sets[0] {
+		got[r] = true
+	}
+	var missing, extra []string
+	for _, r := range want {
+		if !got[r] {
+			missing = append(missing, string(r))
+		}
+		delete(got, r)
+	}
+	for r := range got {
+		extra = append(extra, string(r))
+	}
+	sort.Strings(extra)
+	rc.Check(len(missing) == 0 && len(extra) == 0, key, at, "the punctuation allowed in a tag name is encoding/json's set (missing %q, extra %q)", strings.Join(missing, ""), strings.Join(extra, ""))
+	// letters and digits are the only other characters let through
+	usesLetter, usesDigit := false, false
+	ast.Inspect(fd.Body, func(m ast.Node) bool {
+		if c, ok := m.(*ast.CallExpr); ok {
+			switch core.CalleeName(info, c) {
+			case "unicode.IsLetter":
+				usesLetter = true
+			case "unicode.IsDigit":
+				usesDigit = true
+			}
+		}
+		return true
+	})
+	rc.Check(usesLetter && usesDigit, "runtime.isValidTag/letters-and-digits", fd.Pos(), "other characters are classified with unicode.IsLetter and unicode.IsDigit")
 }
